@@ -36,7 +36,7 @@ def mutants(which):
         for d in sorted(glob.glob('/tmp/seed3/*/out/[mr]*/patch.diff')):
             parts = d.split('/')
             ms.append(('seed3/%s-%s' % (parts[3], parts[5]), d, False))
-    if 'seed5' in which:
+    if 'seed5x' in which:
         for d in sorted(glob.glob('/tmp/seed5/*/out/[mr]*/patch.diff')):
             parts = d.split('/')
             ms.append(('seed5/%s-%s' % (parts[3], parts[5]), d, False))
